@@ -46,7 +46,8 @@ impl<KT: DbMapKeyType> FileDbXxxInner<KT> {
             key_file,
             val_file,
             htx_file,
-            dirty: false,
+            // the files may have just been created: their headers are still buffered.
+            dirty: true,
             _phantom: std::marker::PhantomData,
         })
     }
@@ -246,7 +247,8 @@ impl<KT: DbMapKeyType> DbXxxBase for FileDbXxxInner<KT> {
             self.val_file.flush()?;
             self.key_file.flush()?;
             self.htx_file.flush()?;
-            self.dirty = false;
+            // still dirty: the data has reached the OS, but sync_all()/sync_data()
+            // have to synchronize it to storage.
         }
         Ok(())
     }
@@ -289,6 +291,7 @@ impl<KT: DbMapKeyType> DbXxxObjectSafe<KT> for FileDbXxxInner<KT> {
     }
     #[inline]
     fn put_kt(&mut self, key_kt: &KT, value: &[u8]) -> Result<()> {
+        self.dirty = true;
         let hash = HashValue::new(key_kt.hash_value());
         let opt = self.find_in_hash_buckets_kt(hash, key_kt)?;
         if let Some((key_offset, _prev_key_offset)) = opt {
@@ -313,6 +316,7 @@ impl<KT: DbMapKeyType> DbXxxObjectSafe<KT> for FileDbXxxInner<KT> {
     }
     #[inline]
     fn del_kt(&mut self, key_kt: &KT) -> Result<Option<Vec<u8>>> {
+        self.dirty = true;
         let hash = HashValue::new(key_kt.hash_value());
         let opt = self.find_in_hash_buckets_kt(hash, key_kt)?;
         if let Some((key_offset, _prev_key_offset)) = opt {
